@@ -15,7 +15,7 @@ use std::time::{Duration, Instant};
 #[derive(Clone, Debug, PartialEq)]
 pub enum Dec {
     /// solver-decided branch; `other` = the opposite polarity is feasible and unexplored
-    Bool { taken: bool, other: bool, both: bool },
+    Bool { taken: bool, other: bool, both: bool, h: u32 },
     /// enumerated choice; the value used is `(taken + rot) % n`
     Choose { taken: u32, n: u32, rot: u32 },
 }
@@ -180,6 +180,15 @@ pub fn take_last_panic() -> Option<String> {
     LAST_PANIC.with(|p| p.borrow_mut().take())
 }
 
+fn hash32(s: &str) -> u32 {
+    let mut h: u32 = 0x811c9dc5;
+    for b in s.bytes() {
+        h ^= b as u32;
+        h = h.wrapping_mul(0x01000193);
+    }
+    h | 1
+}
+
 fn stop_path() -> ! {
     resume_unwind(Box::new(StopPath))
 }
@@ -258,9 +267,14 @@ pub fn decide(cond: F) -> bool {
         let smt = cond.smt();
         if c.pos < c.trail.len() {
             let taken = match &c.trail[c.pos] {
-                Dec::Bool { taken, both, .. } => {
+                Dec::Bool { taken, both, h, .. } => {
                     if *both {
                         c.n_fork += 1;
+                    }
+                    if *h != 0 && *h != hash32(&smt) {
+                        // the same decision prefix led to a different condition: the run is not a
+                        // function of the trail (e.g. callback order across hash maps)
+                        panic!("symx: nondeterministic re-execution: decision {} was about another condition last time; now {}", c.pos, smt);
                     }
                     *taken
                 }
@@ -289,7 +303,7 @@ pub fn decide(cond: F) -> bool {
         if can_t && can_f {
             c.n_fork += 1;
         }
-        c.trail.push(Dec::Bool { taken: first, other: can_t && can_f, both: can_t && can_f });
+        c.trail.push(Dec::Bool { taken: first, other: can_t && can_f, both: can_t && can_f, h: hash32(&smt) });
         c.pos += 1;
         if first {
             s.assert(&smt)
